@@ -242,3 +242,22 @@ Theorem C14_notify_iff_registered_now : forall evs c pe closed A T,
    effs = [Handshake.ERegister A T; Handshake.ENotify A T] /\ closed = false).
 Proof. exact Compose_p2p.notify_iff_registry_registered_now. Qed.
 Print Assumptions C14_notify_iff_registered_now.
+
+(* C20 o C14 (proofs/Compose_race.v).  The addPeer calls the responders of a system of n initiators make in the
+   race model of C20 ([Compose_race.registry_history]: remote peer id = index of the initiator, the identity
+   registered there, open connection), under every system schedule: each carries the initiator's proven
+   identity (address bound to its peer id, the type it sent); when the initiators' addresses are pairwise
+   different the history is well formed, so the registry it builds never dereferences nil in Disconnected and
+   its two maps are mutually inverse. *)
+From MevVerif Require model.ConnectRace proofs.Compose_race.
+Theorem C14_system_registry_wf : forall cs sched,
+  NoDup (map (fun c => ConnectRace.pid_addr (ConnectRace.ini c)) cs) ->
+  let H := Compose_race.registry_history (ConnectRace.sys_run ConnectRace.deployed cs sched) in
+  wf H /\ panicked (run H) = false /\
+  (forall p pe, get p (overlays (run H)) = Some pe -> get (p_addr pe) (underlays (run H)) = Some p) /\
+  (forall c pe, In (c, pe) (enrolments H) ->
+     exists k cfgk, nth_error cs k = Some cfgk /\ c = (N.of_nat k, 0) /\
+                    p_addr pe = ConnectRace.pid_addr (ConnectRace.ini cfgk) /\
+                    p_role pe = Z.of_N (ConnectRace.ptype (ConnectRace.ini cfgk))).
+Proof. exact Compose_race.system_registry_wf. Qed.
+Print Assumptions C14_system_registry_wf.
